@@ -67,6 +67,9 @@ def action (rest : List String) : Option (M String) :=
   | ["lose", i] => some (do
       let f ← loseInstance FUEL i.toNat!
       return s!" failed=[{",".intercalate (f.map toString)}]")
+  | ["lose", i, i2] => some (do
+      let f ← loseInstances FUEL (sortNat [i.toNat!, i2.toNat!])
+      return s!" failed=[{",".intercalate ((sortNat f).map toString)}]")
   | ["inst", i, k] => some (do
       modify fun w => { w with instRunning := w.instRunning.set i.toNat! (k == "2"), instChecked := w.instChecked.set i.toNat! (k == "1") }
       return "")
@@ -162,6 +165,7 @@ def judgeOp (w0 w1 : W) (j : Judge) (rest : List String) (reqs : List Req) (star
       if acceptsEvents w0 i.toNat! && ((pr w0 p.toNat!).infos.get? i.toNat!).isSome
       then (onEvent w1 j p.toNat! i.toNat! (pstate st) (s2b ex), []) else (j, [])
     | ["lose", i] => onLose w1 j i.toNat!
+    | ["lose", i, i2] => let (j1, v1) := onLose w1 j i.toNat!; let (j2, v2) := onLose w1 j1 i2.toNat!; (j2, v1 ++ v2)
     | ["restartapp", a, _] =>
       if hasRunningProcesses w0 a.toNat! then (beginStop w0 j a.toNat!, []) else (j, [])
     | ["stopapp", a] => (beginStop w0 j a.toNat!, [])
